@@ -10,7 +10,10 @@ fn main() {
         eprintln!("usage: sim check <PROP> [--tier quick|thorough] [--runs N] [--workers W] | sim replay <file> | sim worker ...");
         std::process::exit(2);
     }
-    let default_cap: u64 = 6 << 30;
+    let default_cap: u64 = args
+        .get(1)
+        .map(|p| bigsim::props::mem_cap(p))
+        .unwrap_or(6 << 30);
     let mem_cap = arg_val(&args, "--mem-cap")
         .and_then(|s| s.parse().ok())
         .unwrap_or(default_cap);
